@@ -627,6 +627,140 @@ pub fn e2e(env: &Env, src: &mut Src<'_>) -> CaseResult {
     Ok(CaseOk { nontrivial: true, digest: digest(&(plan.n, plan.m, plan.steps, format!("{:?}", plan.mode), fj.to_string())), labels, sample: cj })
 }
 
+// ---------------------------------------------------------------------------------------------
+// (d) synthetic batches: every three-party assignment of the intermediates, filled uniformly
+// ---------------------------------------------------------------------------------------------
+
+/// helper h's seven recorded bits for the three-party assignment `a` (bits 0..2 = x shares,
+/// 3..5 = y shares, 6..8 = PRSS masks; helper h holds share h as its left and share h+1 as its
+/// right value; its left mask is mask h, its right mask is mask h+1)
+fn synth_entries(a: u16, h: usize) -> [bool; 7] {
+    let bit = |k: usize| (a >> k) & 1 == 1;
+    let (x, y, p) = (|i: usize| bit(i % 3), |i: usize| bit(3 + i % 3), |i: usize| bit(6 + i % 3));
+    let z_left = |i: usize| (x(i) & y(i)) ^ (x(i) & y(i + 1)) ^ (x(i + 1) & y(i)) ^ p(i) ^ p(i + 1);
+    [x(h), x(h + 1), y(h), y(h + 1), p(h), p(h + 1), z_left(h + 1)]
+}
+
+async fn synth_helper<const N: usize>(ctx: MaliciousContext<'_>, h: usize, m: usize, assign: &(dyn Fn(usize) -> u16 + Sync), fault: Option<(usize, usize, usize, usize)>) -> Result<(), Error>
+where
+    Boolean: FieldSimd<N> + DZKPCompatibleField<N>,
+{
+    let v = ctx.set_total_records(TotalRecords::specified(m)?).dzkp_validator(TEST_DZKP_STEPS, m.next_power_of_two());
+    let mctx = v.context().narrow("synth");
+    for i in 0..m {
+        let bits = synth_entries(assign(i), h);
+        let mut e: Vec<Arr<N>> = bits.iter().map(|b| Arr::<N>::from_fn(|_| Boolean::from(*b))).collect();
+        if let Some((fh, fr, fe, fb)) = fault {
+            if fh == h && fr == i {
+                e[fe] = flip_arr::<N>(&e[fe], fb % N);
+            }
+        }
+        let seg = Segment::from_entries(
+            Boolean::as_segment_entry(&e[0]),
+            Boolean::as_segment_entry(&e[1]),
+            Boolean::as_segment_entry(&e[2]),
+            Boolean::as_segment_entry(&e[3]),
+            Boolean::as_segment_entry(&e[4]),
+            Boolean::as_segment_entry(&e[5]),
+            Boolean::as_segment_entry(&e[6]),
+        );
+        mctx.push(RecordId::from(i), seg);
+    }
+    v.validate().await
+}
+
+fn run_synth<const N: usize>(seed: u64, m: usize, assign: &(dyn Fn(usize) -> u16 + Sync), fault: Option<(usize, usize, usize, usize)>) -> [Result<(), String>; 3]
+where
+    Boolean: FieldSimd<N> + DZKPCompatibleField<N>,
+{
+    block_on(async {
+        let mut wc = TestWorldConfig::default();
+        wc.seed = seed;
+        wc.timeout = None;
+        let world = TestWorld::new_with(&wc);
+        let ctxs = world.malicious_contexts();
+        let mut futs = futures::stream::FuturesUnordered::new();
+        for (h, ctx) in ctxs.into_iter().enumerate() {
+            futs.push(async move {
+                let _ = take_last_panic();
+                let r = futures::FutureExt::catch_unwind(std::panic::AssertUnwindSafe(synth_helper::<N>(ctx, h, m, assign, fault))).await;
+                (h, r)
+            });
+        }
+        let mut res: [Result<(), String>; 3] = [Err("pending".into()), Err("pending".into()), Err("pending".into())];
+        let deadline = tokio::time::Instant::now() + Duration::from_secs(60);
+        loop {
+            match tokio::time::timeout_at(deadline, futs.next()).await {
+                Ok(Some((h, r))) => {
+                    let failed = !matches!(r, Ok(Ok(())));
+                    res[h] = match r {
+                        Ok(Ok(())) => Ok(()),
+                        Ok(Err(e)) => Err(format!("{e:?}")),
+                        Err(p) => {
+                            let msg = panic_message(&p);
+                            let at = take_last_panic().map(|(l, _)| strip_repo_prefix(&l)).unwrap_or_default();
+                            Err(format!("panic at {at}: {msg}"))
+                        }
+                    };
+                    if failed {
+                        break;
+                    }
+                }
+                Ok(None) => break,
+                Err(_) => break,
+            }
+        }
+        let _ = catch(move || drop(futs));
+        let _ = catch(move || drop(world));
+        res
+    })
+}
+
+/// case i: three-party assignment i % 512 of (x shares, y shares, masks); the batch is filled with
+/// it uniformly (shape 0), or in runs that alternate with a second assignment (shapes 1, 2);
+/// width and record count rotate with the index. Honest batch must validate; with one flipped
+/// recorded bit it must be rejected.
+pub fn synthetic(_env: &Env, src: &mut Src<'_>) -> CaseResult {
+    let i = src.raw() as usize;
+    let a = (i % 512) as u16;
+    let shape = (i / 512) % 3;
+    let b = ((i * 167 + 91) % 512) as u16;
+    let (n, m) = [(256usize, 1usize), (256, 2), (256, 3), (256, 9), (64, 5), (64, 130), (8, 70), (256, 33)][(i / 3) % 8];
+    let run = [0usize, 65, 7][shape];
+    let assign = move |r: usize| if run == 0 || (r * n / run) % 2 == 0 { a } else { b };
+    let pj = json!({"assignment": format!("{a:09b}"), "second_assignment": if run == 0 { None } else { Some(format!("{b:09b}")) }, "run_length_in_multiplications": run, "width": n, "records": m});
+    macro_rules! go {
+        ($f:expr) => {
+            match n {
+                8 => run_synth::<8>(i as u64, m, &assign, $f),
+                64 => run_synth::<64>(i as u64, m, &assign, $f),
+                _ => run_synth::<256>(i as u64, m, &assign, $f),
+            }
+        };
+    }
+    let honest = go!(None);
+    // the run stops at the first failing helper: report that one, not the helpers still pending
+    let mut failing: Vec<(usize, &Result<(), String>)> = honest.iter().enumerate().filter(|(_, r)| r.as_ref().err().is_some_and(|e| e != "pending")).collect();
+    if failing.is_empty() {
+        failing = honest.iter().enumerate().filter(|(_, r)| r.is_err()).collect();
+    }
+    for (h, r) in failing {
+        if let Err(e) = r {
+            let sig = if e.starts_with("panic") { format!("honest-synthetic-panic:{}", e.split(':').next().unwrap_or("").replace("panic at ", "")) } else { "honest-synthetic-rejected".to_string() };
+            return Err(violation(sig, format!("helper {h} did not accept a consistent batch filled with one assignment: {e}").chars().take(400).collect::<String>(), pj));
+        }
+    }
+    // one flipped recorded bit
+    let f = ((i / 7) % 3, (i / 5) % m, (i / 11) % 7, (i * 37) % n);
+    let fj = json!({"helper": f.0, "record": f.1, "entry": ENTRY_NAMES[f.2], "bit": f.3});
+    let out = go!(Some(f));
+    let rejected = out.iter().any(|r| r.as_ref().err().is_some_and(|e| is_dzkp_rejection(e)));
+    if !rejected {
+        return Err(violation(format!("altered-batch-accepted:synthetic:{}", ENTRY_NAMES[f.2]), format!("synthetic batch with one flipped recorded bit was not rejected by the proof check: {out:?}").chars().take(400).collect::<String>(), json!({"plan": pj, "fault": fj})));
+    }
+    Ok(CaseOk { nontrivial: true, digest: digest(&(i, "synthetic")), labels: vec![format!("shape:{}", ["uniform", "runs-of-65", "runs-of-7"][shape]), format!("width:{n}"), format!("records:{m}")], sample: json!({"plan": pj, "fault": fj}) })
+}
+
 /// Batch sizes (bit multiplications in ONE proof, width-256 vectors, single-shot validation) at
 /// and just above the last five recursion thresholds 3*4^k, k = 7..11. The last entry is the
 /// smallest batch whose proof uses all MAX_PROOF_RECURSION = 14 levels; production batches
@@ -712,6 +846,8 @@ pub fn subs(_env: &Env) -> Vec<Sub> {
         Sub::random("e2e", 40, 3000, 60_000, e2e,
             "TestWorld malicious contexts, Boolean vectors of width {1,3,5,8,16,20,32,64,256}, 1-3 steps per batch, record counts chosen so the bit-multiplication count hits 1, 255/256/257, 2^k, 2^k+-1, 32*8^j(+1), the recursion thresholds 3*4^k (+1, +256, +257) for k=4..6, >8192 (TARGET_PROOF_SIZE=8192 in test builds) or random; single-shot validate() or validate_record via validated_seq_join with 2^0..2^7 records per batch. Honest run must be accepted by all helpers with the right product; then one fault - a flipped bit of one transmitted z message (interceptor), optionally together with the same bit of the sender's own recorded PRSS mask (a prover whose own view explains its lie), or a flipped bit of one recorded intermediate (x/y/prss/z entry pushed with a flipped bit) - must make at least one helper return DZKPValidationFailed/ParallelDZKPValidationFailed; non-trivial = fault applied inside the populated part")
         .shrink_iters(12),
+        Sub::exhaustive("synthetic", 1536, 1536, synthetic,
+            "batches assembled directly from recorded intermediates (no communication): each of the 512 three-party assignments of (x shares, y shares, PRSS masks) with the product shares they imply, filled uniformly over the batch, or in runs of 65 / 7 multiplications alternating with a second assignment; widths {8,64,256} x 1..130 records; the consistent batch must validate on all helpers (extreme, non-random table inputs to the proof arithmetic), and with one flipped recorded bit some helper must reject"),
         Sub::exhaustive("deep", 20, 100, deep,
             "single-shot batches of width-256 multiplications at and one block above the recursion thresholds 3*4^k, k=7..11 (49,152 .. 12,583,168 bit multiplications; 10..14 proofs, 14 = MAX_PROOF_RECURSION, the depth production batches use): even cases are honest (accepted, right product), odd cases record one intermediate with one flipped bit (last record, first record, or a derived position) and must be rejected by some helper")
         .block(1)
